@@ -169,7 +169,7 @@ def base_axioms():
     A(("mupdate_at", _q([m, p, k], mat(mupdate(m, p), k) == z3.If(mhas(p, k), mat(p, k), mat(m, k)),
                         [mat(mupdate(m, p), k)])))
     A(("mupdate_obj", _q([m, p], z3.And(is_VObj(mupdate(m, p)), tag(mupdate(m, p)) == tag(m)), [mupdate(m, p)])))
-    A(("mupdate_empty", _q([m], mupdate(m, mempty) == m, [mupdate(m, mempty)])))
+    A(("mupdate_empty", _q([m], z3.Implies(is_VObj(m), mupdate(m, mempty) == m), [mupdate(m, mempty)])))
     # membership
     A(("sin_empty", _q([x], z3.Not(sin(sempty, x)), [sin(sempty, x)])))
     A(("sin_snoc", _q([p, y, x], sin(snoc(p, y), x) == z3.Or(x == y, sin(p, x)), [sin(snoc(p, y), x)])))
